@@ -12,23 +12,31 @@ EXTENDS ArgMap, TLC, Json
 VarDefs == << [name |-> "p", def |-> <<>>], [name |-> "q", def |-> <<VInt(3)>>], [name |-> "n", def |-> <<VNull>>] >>   \* $n: Int = null
 Supply(name) == { <<>>, <<[name |-> name, v |-> VNull]>>, <<[name |-> name, v |-> VInt(5)]>> }
 
-ArgDefault(a) == CASE a = "d" -> <<VInt(7)>> [] a = "e" -> <<VEnum("RED")>> [] OTHER -> <<>>
+\* The switch SCHEMA2 (carried in Devs with the deviations; it is a configuration, not a deviation)
+\* selects a second schema with the same names and other defaults:  f(i: Int = 11, d: Int = 8, e: E = GREEN)
+S2 == "SCHEMA2" \in Devs
+ArgDefault(a) == CASE a = "d" -> <<VInt(IF S2 THEN 8 ELSE 7)>>
+                   [] a = "e" -> <<VEnum(IF S2 THEN "GREEN" ELSE "RED")>>
+                   [] a = "i" /\ S2 -> <<VInt(11)>>
+                   [] OTHER -> <<>>
 Uses(a) ==
   CASE a \in {"i", "d"} -> { <<>>, <<VInt(1)>>, <<VNull>>, <<VVar("p")>>, <<VVar("q")>>, <<VVar("n")>> }
     [] a = "l" -> { <<>>, <<VList(<<VInt(1), VVar("p")>>)>>, <<VList(<<VVar("q"), VNull>>)>>, <<VList(<<VVar("n"), VInt(2)>>)>>, <<VList(<<>>)>>, <<VNull>> }
     [] a = "o" -> { <<>>, <<VMap(<<Ent("x", VVar("p"))>>)>>, <<VMap(<<Ent("x", VVar("n"))>>)>>,
                     <<VMap(<<Ent("x", VInt(1)), Ent("y", VList(<<VVar("q")>>)), Ent("z", VMap(<<Ent("x", VVar("p"))>>))>>)>>,
                     <<VMap(<<>>)>>, <<VNull>> }
-    [] a = "a" -> { <<>>, <<VFloat("3.5")>>, <<VStr("s")>>, <<VEnum("ENUMV")>>, <<VBool(TRUE)>>,
+    [] a = "a" -> { <<>>, <<VFloat("3.5")>>, <<VStr("s")>>, <<VStr("LATIN1")>>, <<VList(<<VStr("LATIN1"), VStr("s")>>)>>, <<VEnum("ENUMV")>>, <<VBool(TRUE)>>,
                     <<VMap(<<Ent("k", VList(<<VInt(1), VMap(<<Ent("m", VVar("p"))>>)>>))>>)>>, <<VBig>>,
                     <<VList(<<VBig>>)>> }
-    [] a = "e" -> { <<>>, <<VEnum("GREEN")>>, <<VNull>> }
+    [] a = "e" -> { <<>>, <<VEnum("GREEN")>>, <<VEnum("RED")>>, <<VNull>> }
     \* numeric literals at the edge of what the host language can represent: if such a document
     \* passes validation, resolving its arguments must still return normally
     [] a = "fl" -> { <<>>, <<VFloat("2.5")>>, <<VInt(1)>>, <<VBig>>, <<VHuge>> }
-    [] a = "id" -> { <<>>, <<VStr("x")>>, <<VInt(4)>>, <<VBig>> }
+    [] a = "id" -> { <<>>, <<VStr("x")>>, <<VStr("LATIN1")>>, <<VInt(4)>>, <<VBig>> }
     [] a = "fls" -> { <<>>, <<VList(<<VFloat("2.5"), VHuge>>)>>, <<VList(<<VBig>>)>> }
 
+\* "LATIN1" names a string the harness writes with \u00XX escapes (code points 128..255): the
+\* model's strings are ASCII, the value compared is the one the name stands for
 VARIABLES arg, use, sp, sq, sn
 vars == <<arg, use, sp, sq, sn>>
 Init == /\ arg \in {"i", "d", "l", "o", "a", "e", "fl", "id", "fls"}
